@@ -1,3 +1,7 @@
 //! Shared helpers for the correspondence harness.
 pub mod prng;
+pub mod scriptfs;
+pub mod srvgen;
+pub mod srvoracle;
 pub mod util;
+pub mod vq;
